@@ -197,6 +197,32 @@ def run(ctx):
                 if x.grad is None or not bool(torch.isfinite(torch.view_as_real(x.grad) if cplx else x.grad).all()):
                     ctx.violation("C19/%s/silent-sample-gradient" % cls, "%s: a batch of shape %s in which member 1 is all zero gets a non-finite input gradient (%d NaN/inf entries)" % (
                         name, shape, 0 if x.grad is None else int((~torch.isfinite(torch.view_as_real(x.grad) if cplx else x.grad)).sum())), {"stage": name, "shape": list(shape), "complex": cplx})
+    # a few exactly-zero samples inside an item (guard band, zero padding) while clipping / scaling is active
+    for name, cls, mk, mode in stages:
+        if cls not in ("TotalPowerConstraint", "AveragePowerConstraint", "PAPRConstraint", "PeakAmplitudeConstraint", "PerAntennaPowerConstraint"):
+            continue
+        for shape in ([(12,), (2, 12), (2, 3, 2, 2)] if mode == "both" else [(2, 3, 6)]):
+            for cplx in (False, True):
+                x = mkx(shape, cplx, rng.randrange(1 << 30))
+                flat = x.reshape(-1)
+                flat[0] = 0
+                flat[flat.numel() // 2] = 0
+                flat[-1] = 0
+                flat[1] = flat[1] * 6                 # one dominant peak: clipping is active
+                x = flat.reshape(shape).clone().requires_grad_(True)
+                w = mkx(shape, cplx, 9)
+                ctx.count("zero-sample-cases")
+                try:
+                    y = mk()(x)
+                    loss = (y * w.conj()).real.sum() if torch.is_complex(y) else (y * w).sum()
+                    loss.backward()
+                except Exception as ex:
+                    ctx.violation("C19/%s/zero-sample-raises" % cls, "%s on an input of shape %s with exactly-zero samples raised %s" % (name, shape, str(ex)[:100]), {"stage": name, "shape": list(shape)})
+                    continue
+                g_ = torch.view_as_real(x.grad) if cplx else x.grad
+                if x.grad is None or not bool(torch.isfinite(g_).all()):
+                    ctx.violation("C19/%s/zero-sample-gradient" % cls, "%s: an input of shape %s with three exactly-zero samples and one dominant peak gets a non-finite gradient (%d NaN/inf entries)" % (
+                        name, shape, 0 if x.grad is None else int((~torch.isfinite(g_)).sum())), {"stage": name, "shape": list(shape), "complex": cplx})
     ctx.log("stages done", len(exprs))
 
     # ------------------------------------------------------------------ architectures: shapes, range, gradients
